@@ -308,7 +308,8 @@ func (u *Universe) prelude(heaps []string, db *DB, usedSpec map[string]bool) str
 		b.WriteString("))))\n")
 	}
 	b.WriteString("(declare-fun f32bits ((_ FloatingPoint 8 24)) Int)\n(declare-fun f64bits ((_ FloatingPoint 11 53)) Int)\n")
-	b.WriteString("(declare-fun box_any (Int Int) Int)\n")
+	b.WriteString("(declare-fun box_any (Int Int) Int)\n(declare-fun unbox_any (Int) Int)\n")
+	b.WriteString("(assert (forall ((t Int) (v Int)) (! (= (unbox_any (box_any t v)) v) :pattern ((box_any t v)))))\n")
 	// closed world: the dynamic types declared in the library are exactly these
 	lib := []string{"false"}
 	for _, id := range u.libIDs {
